@@ -2151,7 +2151,7 @@ def run(ctx):
 
     # ---- modes ---------------------------------------------------------------------------------------
     K.check_redecode_modes(ctx, f, rule="R-SIB")
-    ctx.floor("R-SIB", "captured fields handed to bcder encoders", K.check_encode_modes(ctx, f, rule="R-SIB"), 6)
+    ctx.floor("R-SIB", "captured fields handed to bcder encoders", K.check_encode_modes(ctx, f, rule="R-SIB", reach=reach), 4)
 
 
 ALLOC_TABLE = {
